@@ -91,6 +91,10 @@ func runC12(c *runCtx) {
 		// prologue
 		var sb strings.Builder
 		starts := []string{"<!DOCTYPE html>", "<!doctype HTML>\n<html>", "<html>", "<HTML lang=\"en\">", "<head>", "<!DOCTYPE html><html><head>"}
+		if r.Intn(5) == 0 {
+			// white space in front of the markup (every kind the markup detector skips)
+			sb.WriteString([]string{" ", "\n", "\t", "\r\n", "\x0c", " \t\n "}[r.Intn(6)])
+		}
 		sb.WriteString(starts[r.Intn(len(starts))])
 		for k := r.Intn(4); k > 0; k-- {
 			switch r.Intn(8) {
